@@ -538,7 +538,9 @@ theorem Apply_np (c : ACtx) (hs : ∀ a b, NP (c.sch a b)) (d u : Doc) (afs : Li
   split
   · exact NP_err
   · split
-    · rename_i e he; exact NP_of_error (Apply_ops_np c hs _ _ _) he
-    · exact NP_ok _
+    · exact NP_err
+    · split
+      · rename_i e he; exact NP_of_error (Apply_ops_np c hs _ _ _) he
+      · exact NP_ok _
 
 end Lungo
